@@ -835,6 +835,9 @@ class Repo:
             if nm == 'cast' and len(e.args) == 2:
                 t = self.ann_type(f.module, e.args[0], f.cls)
                 return {t} if t else set()
+            if nm in ('open', 'input', 'range', 'zip', 'map', 'filter', 'iter', 'bytes', 'bytearray', 'hex', 'chr', 'format') \
+                    and nm not in self.func_locals(f) and self.lookup(f.module, nm) is None:
+                return {('extcall', 'builtins.' + nm)}
         for ct in self.expr_types(f, fn):
             if ct[0] == 'class':
                 out.add(('inst', ct[1]))
